@@ -61,12 +61,15 @@ impl Offset {
                 return {
                     let result = fs::read("/etc/localtime");
                     match result {
-                        Ok(bytes) => {
-                            TimeZone::from_tzif(&bytes)
-                                .unwrap()
-                                .to_local_time_type(DateTime::now().timestamp())
-                                .utoff
-                        }
+                        Ok(bytes) => match TimeZone::from_tzif(&bytes) {
+                            Ok(time_zone) => {
+                                time_zone
+                                    .to_local_time_type(DateTime::now().timestamp())
+                                    .utoff
+                            }
+                            // Fall back to UTC like when the file can't be read
+                            Err(_) => 0,
+                        },
                         Err(_) => 0,
                     }
                 };
